@@ -362,6 +362,25 @@ example :
     (ccittfaxdecode (some 0) (some 3) false false [0xFF]).toOption = none := by
   decide +kernel
 
+/-- `run_rt`, `line_rt`, `encodeLine_fuel`, `ccittBranch_total`: their hypotheses are met by ordinary states. -/
+example : ∃ st1 : St, st1.n1 = 0 + 2700 ∧ st1.color = false :=
+  (run_rt true 2700 { initSt 5 false false with acc := .horiz1, node := runTrie true } rfl rfl rfl).elim
+    fun st1 h => ⟨st1, h.1, h.2.2.1⟩
+
+example : ∃ st', Ready 5 true false [true, false, false, true, true]
+    ([] ++ packLine false [true, false, false, true, true]) st' :=
+  (line_rt 5 (by omega) true false (List.replicate 5 true) [true, false, false, true, true] rfl rfl
+    [.horiz, .vert] [] (initSt 5 true false) ⟨rfl, rfl, rfl, rfl, rfl, rfl, rfl, rfl, rfl, rfl⟩).elim
+    fun st' h => ⟨st', h.1⟩
+
+example : T6.encodeLineAux [true, true, true] [false, true, false] 100 (-1) true [.vert]
+    = T6.encodeLine [true, true, true] [false, true, false] [.vert] :=
+  encodeLine_fuel [true, true, true] [false, true, false] rfl [.vert] 100 (by decide)
+
+example : (∃ out, ccittBranch (.dict [("K", .int (-1)), ("Columns", .int 3), ("BlackIs1", .int 1)]) [0x00, 0x80] = .ok out) ∨
+    ccittBranch (.dict [("K", .int (-1)), ("Columns", .int 3), ("BlackIs1", .int 1)]) [0x00, 0x80] = .error .invalidData :=
+  ccittBranch_total _ (some 3) false true _ rfl rfl (by decide) rfl rfl
+
 /-- `decode_output_bounded` on the all-ones data above: 9 bytes out of 3 bytes in, bound 144. -/
 example : (9 : Nat) ≤ 48 * [0xFF, 0x12, 0x34].length * ((((some 3 : Option Int).getD 1728).toNat + 7) / 8) := by
   decide
